@@ -91,6 +91,27 @@ pub fn forge(
             let id = RecordIdentifier::new(w.ns.id(), non_curve_point(), k);
             (Entry::new(id, rec()).sign(&w.ns, w.author(a)), true, false)
         }
+        "weak_author" => {
+            // the author id is a point of small order (the identity 0100..00, or ecff..ff7f of order 2) and the author signature
+            // is the constant (R = identity, S = 0), which satisfies the plain verification equation for such keys whatever the
+            // content; strict verification (what the crate's key type does) refuses keys of small order. The namespace
+            // signature is genuine.
+            let mut weak = [0u8; 32];
+            if ts % 2 == 0 {
+                weak[0] = 1;
+            } else {
+                weak = [0xff; 32];
+                weak[0] = 0xec;
+                weak[31] = 0x7f;
+            }
+            let id = RecordIdentifier::new(w.ns.id(), weak, k);
+            let e = Entry::new(id, rec()).sign(&w.ns, w.author(a));
+            let mut v = serde_json::to_value(&e).unwrap();
+            let mut sig = vec![0u8; 64];
+            sig[0] = 1;
+            v["signature"]["author_signature"] = json!(sig);
+            (serde_json::from_value(v).unwrap(), true, false)
+        }
         "flip_ts" | "flip_len" | "flip_hash" | "flip_key" | "flip_sig" => {
             // sign slightly different content, then overwrite one field so that the final content
             // is the requested one but the signatures cover something else
@@ -578,6 +599,7 @@ pub const CLASSES: &[&str] = &[
     "foreign_ns",
     "foreign_ns_oursig",
     "noncurve_author",
+    "weak_author",
     "flip_ts",
     "flip_len",
     "flip_hash",
@@ -835,6 +857,21 @@ pub fn run_histories(
                 }
                 let panicked = ev["ev"] == "PANIC";
                 sum.add(&format!("ev_{}", ev["ev"].as_str().unwrap_or("?")), 1);
+                // how often each class of forged entry was offered (single inserts and values of reconciliation messages)
+                if let Some(c) = op["cls"].as_str() {
+                    if c != "ok" {
+                        sum.add(&format!("forged_{c}"), 1);
+                    }
+                }
+                for part in op["parts"].as_array().into_iter().flatten() {
+                    for v in part["vals"].as_array().into_iter().flatten() {
+                        if let Some(c) = v["cls"].as_str() {
+                            if c != "ok" {
+                                sum.add(&format!("forged_{c}"), 1);
+                            }
+                        }
+                    }
+                }
                 trace.emit(ev);
                 if panicked {
                     break;
